@@ -170,6 +170,47 @@ fn collect_sites(n: &Node, text: &str, interfaces: &BTreeMap<String, Vec<String>
         }
       }
     }
+    "member_definition" => {
+      // or-patterns: every alternative must bind exactly the same names. Make one alternative
+      // bind an extra name (a parameter of the enclosing member, so the name itself resolves),
+      // or bind a different name than the others.
+      let params: Vec<String> = n.children.iter().filter(|c| c.kind == "parameters").flat_map(|p| p.children.iter()).filter_map(|p| p.children.iter().find(|c| c.kind == "parameter_name").map(|c| c.attr.clone())).collect();
+      fn ors<'a>(n: &'a Node, out: &mut Vec<&'a Node>) {
+        if n.kind == "pattern_or" {
+          out.push(n);
+        }
+        for c in &n.children {
+          ors(c, out);
+        }
+      }
+      fn leaves<'a>(n: &'a Node, kind: &str, out: &mut Vec<&'a Node>) {
+        if n.kind == kind {
+          out.push(n);
+        }
+        for c in &n.children {
+          leaves(c, kind, out);
+        }
+      }
+      let mut found = Vec::new();
+      ors(n, &mut found);
+      for o in found {
+        for (k, alt) in o.children.iter().enumerate() {
+          let mut binders = Vec::new();
+          leaves(alt, "pattern_id", &mut binders);
+          let bound: BTreeSet<&str> = binders.iter().map(|b| b.attr.as_str()).collect();
+          let Some(extra) = params.iter().find(|p| !bound.contains(p.as_str())) else { continue };
+          let mut wild = Vec::new();
+          leaves(alt, "pattern_wildcard", &mut wild);
+          if let Some(loc) = wild.first().and_then(|w| w.loc) {
+            let which = if k == 0 { "or-pattern-first-alternative-binds-extra-name" } else { "or-pattern-later-alternative-binds-extra-name" };
+            out.push(Site { op: which, loc, replacement: extra.clone(), detail: format!("alternative {} of {} binds `{extra}` in addition", k + 1, o.children.len()) });
+          }
+          if let Some(loc) = binders.first().and_then(|b| b.loc) {
+            out.push(Site { op: "or-pattern-alternative-binds-different-name", loc, replacement: "otherBinderZz".into(), detail: format!("alternative {} of {} binds `otherBinderZz` instead of `{}`", k + 1, o.children.len(), binders[0].attr) });
+          }
+        }
+      }
+    }
     "class" => {
       // a class that implements an interface of this module: delete a required method / change its return type
       let supers: Vec<String> = n.children.iter().filter(|c| c.kind == "supertypes").flat_map(|s| s.children.iter()).filter_map(|a| a.children.iter().find(|c| c.kind == "annot_id_name").map(|c| c.attr.clone())).collect();
@@ -237,6 +278,77 @@ fn template_faults() -> Vec<(&'static str, String, Project, String)> {
   ]
 }
 
+/// Pattern matrices built from scratch: the scrutinee is a tuple / a struct / a variant payload of
+/// 2-3 small enums; the complete matrix has one arm per combination of tags, so the arms are
+/// pairwise disjoint and deleting ANY single arm makes the match non-exhaustive. The same holes as
+/// refutable `let` patterns. Returns the complete (accepted) program and the faulty variants.
+fn matrix_family(rng: &mut Rng) -> (Project, Vec<(&'static str, String, Project)>) {
+  let k = 2 + rng.below(2);
+  let shape = rng.below(3); // 0 tuple, 1 struct, 2 variant payload
+  let mut decls = String::new();
+  let mut enums: Vec<Vec<(String, bool)>> = Vec::new(); // per column: (tag, has int payload)
+  for c in 0..k {
+    let nv = 2 + rng.below(2);
+    let tags: Vec<(String, bool)> = (0..nv).map(|v| (format!("T{c}v{v}"), rng.chance(1, 2))).collect();
+    decls.push_str(&format!("class E{c}({}) {{}}\n", tags.iter().map(|(t, p)| if *p { format!("{t}(int)") } else { t.clone() }).collect::<Vec<_>>().join(", ")));
+    enums.push(tags);
+  }
+  let tys: Vec<String> = (0..k).map(|c| format!("E{c}")).collect();
+  let fields: Vec<String> = (0..k).map(|c| format!("fld{c}")).collect();
+  let (scrut_ty, imports) = match shape {
+    0 => (format!("{}<{}>", if k == 2 { "Pair" } else { "Triple" }, tys.join(", ")), format!("import {{ {} }} from std.tuples\n", if k == 2 { "Pair" } else { "Triple" })),
+    1 => {
+      decls.push_str(&format!("class Rec({}) {{}}\n", (0..k).map(|c| format!("val {}: {}", fields[c], tys[c])).collect::<Vec<_>>().join(", ")));
+      ("Rec".to_string(), String::new())
+    }
+    _ => {
+      decls.push_str(&format!("class Wrap(Only({})) {{}}\n", tys.join(", ")));
+      ("Wrap".to_string(), String::new())
+    }
+  };
+  // mention order of struct fields (any order is legal)
+  let mut order: Vec<usize> = (0..k).collect();
+  if shape == 1 {
+    rng.shuffle(&mut order);
+  }
+  let sub = |c: usize, v: usize| -> String {
+    let (t, p) = &enums[c][v];
+    if *p { format!("{t}(_)") } else { t.clone() }
+  };
+  let row_text = |combo: &[usize]| -> String {
+    match shape {
+      0 => format!("({})", (0..k).map(|c| sub(c, combo[c])).collect::<Vec<_>>().join(", ")),
+      1 => format!("{{ {} }}", order.iter().map(|&c| format!("{} as {}", fields[c], sub(c, combo[c]))).collect::<Vec<_>>().join(", ")),
+      _ => format!("Only({})", (0..k).map(|c| sub(c, combo[c])).collect::<Vec<_>>().join(", ")),
+    }
+  };
+  let mut combos: Vec<Vec<usize>> = vec![vec![]];
+  for c in 0..k {
+    combos = combos.into_iter().flat_map(|pre| (0..enums[c].len()).map(move |v| { let mut x = pre.clone(); x.push(v); x })).collect();
+  }
+  let program = |rows: &[Vec<usize>], let_row: Option<&Vec<usize>>| -> Project {
+    let arms: Vec<String> = rows.iter().enumerate().map(|(n, r)| format!("      {} -> {n}", row_text(r))).collect();
+    let let_fn = match let_row {
+      Some(r) => format!("  function g(x: {scrut_ty}): int = {{ let {} = x; 1 }}\n", row_text(r)),
+      None => String::new(),
+    };
+    let text = format!("{imports}{decls}class Main {{\n  function f(x: {scrut_ty}): int =\n    match x {{\n{}\n    }}\n{let_fn}  function main(): unit = {{ }}\n}}\n", arms.join(",\n"));
+    Project::single("pat.Matrix", &text)
+  };
+  let base = program(&combos, None);
+  let mut faults = Vec::new();
+  let shape_name = ["tuple", "struct", "variant-payload"][shape];
+  for r in 0..combos.len() {
+    let mut rows = combos.clone();
+    let gone = rows.remove(r);
+    faults.push(("pattern-matrix-arm-deleted", format!("{shape_name} of {k} enums, field order {order:?}: arm {} of {} deleted", row_text(&gone), combos.len()), program(&rows, None)));
+  }
+  // a refutable pattern in a plain let
+  let r = combos[rng.below(combos.len())].clone();
+  faults.push(("refutable-pattern-in-let", format!("{shape_name} of {k} enums: let {} = x", row_text(&r)), program(&combos, Some(&r))));
+  (base, faults)
+}
+
 struct CaseOut {
   sites_tried: u64,
   by_op: BTreeMap<String, u64>,
@@ -285,6 +397,21 @@ fn run_case(seed: u64, i: u64, corpus: &Corpus, tier: &str) -> (CaseOut, String,
       judge_mutant(&project, &module, "app.B", op, &detail, &mut out);
     }
     return (out, "templates".into(), None);
+  }
+  if i % 10 == 5 {
+    // complete pattern matrices with one arm removed
+    let (base, faults) = matrix_family(&mut rng);
+    let mut heap = samlang_heap::Heap::new();
+    let ok = !front::check_project(&mut heap, &base.clone().with_std()).errors.has_errors();
+    if !ok {
+      out.base_rejected = true;
+      return (out, "pattern matrix (complete matrix rejected)".into(), None);
+    }
+    let n = faults.len();
+    for (op, detail, p) in faults {
+      judge_mutant(&p.with_std(), "pat.Matrix", "pat.Matrix", op, &detail, &mut out);
+    }
+    return (out, format!("pattern matrix with {n} single-arm deletions"), None);
   }
   // base program: generated (2 of 3) or a sample program with its dependencies
   let (label, user, entry): (String, Project, String) = if i % 3 != 0 {
